@@ -419,44 +419,19 @@ def scope_set_rule(ctx, fb):
     if bad:
         ctx.report("C08-unbound", "LexicalScope::set/defines", "set creates a binding (%s) instead of failing / walking to "
                    "the defining frame" % bad, where_of(f))
-    # (2) decision table over (found in this frame?, has parent?)
-    rows = {}
-    for found in (False, True):
-        for has_parent in (False, True):
-            env = {1: [absint.Enum(1 if has_parent else 0, [absint.UNKNOWN]), absint.UNKNOWN]}
-            trace = []
-
-            def oracle(ff, bb, tt, env, found=found):
-                c = callee(tt) or ""
-                trace.append(c)
-                if c.endswith("HashMap::get_mut") or c.endswith("HashMap::get") or c.endswith("contains_key"):
-                    if c.endswith("contains_key"):
-                        return found
-                    return absint.Enum(1 if found else 0, [absint.UNKNOWN])
-                if c.endswith("LexicalScope::set"):
-                    e = absint.Enum(0, [[]])
-                    e.name = "RecursiveResult"
-                    return absint.UNKNOWN
-                if c.endswith("::branch"):
-                    return absint.Enum(0, [absint.UNKNOWN])  # Continue
-                return None
-            try:
-                kind, b, env2 = absint.run_fragment(f, 0, env, oracle=oracle)
-                r = env2.get(0)
-                res = getattr(r, "name", "?") if isinstance(r, absint.Enum) else "?"
-            except (absint.Stuck, absint.Loop) as e:
-                res = "stuck:%s" % e
-            rec = any(c.endswith("LexicalScope::set") for c in trace)
-            rows[(found, has_parent)] = (res, rec)
-            ctx.inst("C08-unbound", "LexicalScope::set/found=%s,parent=%s" % (found, has_parent), {"result": res, "recurses": rec})
-    want = {(False, False): ("Err", False), (False, True): ("Ok", True), (True, False): ("Ok", False), (True, True): ("Ok", False)}
-    for k, w in want.items():
-        got = rows[k]
-        # (False, True): result is whatever the parent returns via `?` then Ok(()); recursion is what matters
-        if got[1] != w[1] or (got[0] != w[0]):
-            ctx.report("C08-unbound", "LexicalScope::set/table/found=%s,parent=%s" % k,
-                       "set(found=%s, has_parent=%s) -> %s%s, expected %s%s" % (
-                           k[0], k[1], got[0], " via parent" if got[1] else "", w[0], " via parent" if w[1] else ""), where_of(f))
+    # (2) semantics on a chain of three frames (scopes.py): no frame binds the name -> Err and nothing is written
+    from . import scopes
+    for found in scopes.subsets(3):
+        r = scopes.walk(fb, "set", found, 3)
+        key = "LexicalScope::set/bound-in=%s" % sorted(found)
+        ctx.inst("C08-unbound", key, {"result": r.get("result"), "stores": [list(x) for x in r.get("stores", [])], "stuck": r.get("stuck")})
+        if "stuck" in r:
+            ctx.report("C08-unbound", key, "cannot follow LexicalScope::set (%s)" % r["stuck"], where_of(f))
+        elif not found and (r["result"] != "Err" or r["stores"] or r["inserts"]):
+            ctx.report("C08-unbound", key, "assigning an unbound name gives %s (stores %s, inserts %s), expected an error and "
+                       "no effect" % (r["result"], r["stores"], r["inserts"]), where_of(f))
+        elif found and r["result"] != "Ok":
+            ctx.report("C08-unbound", key, "assigning a bound name gives %s, expected Ok" % r["result"], where_of(f))
     if not any(v == "UnboundedSymbol" for _, _, _, _, v in mir.aggregates(f)):
         ctx.report("C08-unbound", "LexicalScope::set/error-kind", "set does not build UnboundedSymbol", where_of(f))
 
